@@ -29,12 +29,14 @@ def bounds_for(tier, tpl=None):
 def jobs_for(tier):
     jobs = []
     if tier == 'quick':
-        tpls = corpus.select(feats={'basic', 'ext', 'combo', 'manyadd'}, exclude={'real'}) + \
+        tpls = corpus.select(feats={'basic', 'ext', 'combo', 'manyadd'}, exclude={'real', 'spill'}) + \
             corpus.generated(quick=True, exclude={'real'})
     else:
         tpls = corpus.TEMPLATES + corpus.generated()
     for t in tpls:
         for codec in C.BINARY_CODECS:
+            if 'spill' in t['feats'] and codec not in ('per', 'uper'):
+                continue      # > 4096 bits: about the PER/UPER accumulator spill
             for ne in ((False, True) if ('enum' in t['feats'] and tier == 'thorough') else (False,)):
                 W = 256 if tier == 'quick' else 384
                 jobs.append(dict(id='%s/%s%s' % (t['id'], codec, '/numeric' if ne else ''),
